@@ -1,3 +1,418 @@
-(* placeholder, being written *)
-From Coq Require Import ZArith List Bool Lia.
-From NV Require Import Base.Result Base.Bytes Model.TagAct Model.TagReadAny Model.TagReadAnyB.
+(* C08, Type 3 / Type 4: the readers of Model/TagReadAnyB.v against an ARBITRARY scripted responder return
+   no NDEF or an NDEF state whose length does not exceed the capacity and that was read from the data
+   area only; never Crash, never Hang; the number of commands is bounded by the size of the data area. *)
+From Coq Require Import ZArith List Bool Lia ZifyBool.
+From NV Require Import Base.Result Base.Bytes Base.PyPrims Proofs.Chunks Model.IsoDep Model.T3T Model.T4T
+  Model.TagAct Model.TagReadAnyB Proofs.T3T.
+Import ListNotations.
+Open Scope Z_scope.
+Ltac Zify.zify_post_hook ::= Z.to_euclidean_division_equations.
+
+(* ------------------------------------------------------------ bytes *)
+Lemma bytes_ok_skipn n (l : list Z) : bytes_ok l -> bytes_ok (skipn n l).
+Proof. revert l. induction n as [|n IH]; intros [|x l] H; cbn; auto. apply IH. inversion H; auto. Qed.
+Lemma bytes_ok_firstn n (l : list Z) : bytes_ok l -> bytes_ok (firstn n l).
+Proof. revert l. induction n as [|n IH]; intros [|x l] H; cbn; try constructor. - inversion H; auto. - apply IH. inversion H; auto. Qed.
+Lemma len_firstn_le {A} n (l : list A) : len (firstn n l) <= Z.of_nat n.
+Proof. unfold len. rewrite firstn_length. lia. Qed.
+
+(* ------------------------------------------------------------ Type 3: the air *)
+Definition ax_ok (a : aresult) : Prop := match a with ARx d => bytes_ok d | _ => True end.
+Definition air_ok (s : air) : Prop := Forall ax_ok (a_script s).
+Definition sent (s : air) : Z := len (a_sent s).
+
+Lemma air_xchg_cases s f : air_ok s ->
+  ax_ok (fst (air_xchg s f)) /\ air_ok (snd (air_xchg s f)) /\ a_blocks (snd (air_xchg s f)) = a_blocks s /\
+  sent (snd (air_xchg s f)) = sent s + 1.
+Proof.
+  intro H. unfold air_xchg, air_ok, sent in *. cbn [fst snd a_script a_blocks a_sent]. rewrite len_cons.
+  destruct (a_script s) as [|a r]; cbn [hd_x tl]; [repeat split; auto; lia|]. inversion H; subst. repeat split; auto; lia.
+Qed.
+
+Lemma t3_xchg3_cases s f : air_ok s ->
+  exists s', snd (t3_xchg3 s f) = s' /\ air_ok s' /\ a_blocks s' = a_blocks s /\ sent s' <= sent s + 3 /\
+    ((exists r, fst (t3_xchg3 s f) = Ok r /\ bytes_ok r) \/ (exists e, fst (t3_xchg3 s f) = Err (TagCommandError e))).
+Proof.
+  intro H. unfold t3_xchg3.
+  pose proof (air_xchg_cases s f H) as (A1 & O1 & B1 & S1). destruct (air_xchg s f) as [a1 s1]. cbn [fst snd] in *.
+  destruct a1 as [r1| | |].
+  1: { exists s1. split; [reflexivity|]. split; [exact O1|]. split; [exact B1|]. split; [lia|]. left. exists r1. split; [reflexivity | exact A1]. }
+  all: pose proof (air_xchg_cases s1 f O1) as (A2 & O2 & B2 & S2); destruct (air_xchg s1 f) as [a2 s2]; cbn [fst snd] in *;
+       destruct a2 as [r2| | |].
+  all: try (exists s2; split; [reflexivity|]; split; [exact O2|]; split; [congruence|]; split; [lia|]; left; exists r2; split; [reflexivity | exact A2]; fail).
+  all: pose proof (air_xchg_cases s2 f O2) as (A3 & O3 & B3 & S3); destruct (air_xchg s2 f) as [a3 s3]; cbn [fst snd] in *;
+       destruct a3 as [r3| | |]; exists s3; (split; [reflexivity|]); (split; [auto|]); (split; [congruence|]); (split; [lia|]).
+  all: try (left; exists r3; split; [reflexivity | exact A3]; fail).
+  all: right; eexists; reflexivity.
+Qed.
+
+Lemma t3_rsp_any_cases code si idm rsp : bytes_ok rsp ->
+  (exists d, t3_rsp_any code si idm rsp = Ok d /\ bytes_ok d) \/ exists e, t3_rsp_any code si idm rsp = Err (TagCommandError e).
+Proof.
+  intro Hb. unfold t3_rsp_any.
+  destruct (_ || _); [right; eauto|]. destruct (negb (_ =? code + 1)); [right; eauto|].
+  destruct (si && _); [right; eauto|]. destruct (negb si); [left; eexists; split; [reflexivity|]; apply bytes_ok_skipn, Hb|].
+  destruct (len rsp <? 12); [right; eauto|]. destruct (negb _); [right; eauto|].
+  left; eexists; split; [reflexivity|]. apply bytes_ok_skipn, Hb.
+Qed.
+
+Lemma t3_dev_read_cases idm s bl : air_ok s -> len idm = 8 -> Forall (fun b => 0 <= b < 65536) bl -> len bl <= 80 ->
+  exists s', snd (t3_dev_read idm s bl) = s' /\ air_ok s' /\ a_blocks s' = rev bl ++ a_blocks s /\ sent s' <= sent s + 3 /\
+    ((exists d, fst (t3_dev_read idm s bl) = Ok d /\ bytes_ok d /\ len d = 16 * len bl) \/
+     (exists e, fst (t3_dev_read idm s bl) = Err (TagCommandError e))).
+Proof.
+  intros H Hi Hb Hn. unfold t3_dev_read. destruct (rd_frame_ok idm bl Hi Hb Hn) as [f ->].
+  assert (H' : air_ok (air_note s bl)) by exact H.
+  destruct (t3_xchg3_cases (air_note s bl) f H') as (s' & Es & O & B & S & C).
+  destruct (t3_xchg3 (air_note s bl) f) as [r s0]. cbn [fst snd] in *. subst s0.
+  exists s'. destruct C as [(rsp & -> & Hr) | (e & ->)]; cbn [fst snd].
+  - split; [reflexivity|]. split; [exact O|]. split; [exact B|]. split; [exact S|].
+    destruct (t3_rsp_any_cases 6 true idm rsp Hr) as [(d & -> & Hd) | (e & ->)]; cbn [bind]; [|right; eauto].
+    destruct (negb (len d =? 1 + 16 * len bl)) eqn:E; [right; eauto|]. left. eexists. split; [reflexivity|].
+    split; [apply bytes_ok_skipn, Hd|]. unfold drop, len in *. rewrite skipn_length. lia.
+  - split; [reflexivity|]. split; [exact O|]. split; [exact B|]. split; [exact S|]. right; eauto.
+Qed.
+
+(* the data block loop: no Hang, no Crash, only blocks 1 .. last-1, at most 3 frames per block *)
+Lemma rd_loop_cases idm : forall fuel s i last nbr acc, air_ok s -> len idm = 8 -> 1 <= nbr <= 15 -> 1 <= i -> last <= 65536 ->
+  (Z.to_nat (last - i) <= fuel)%nat -> bytes_ok acc ->
+  exists s' nb, snd (rd_loop air (t3_dev_read idm) fuel s i last nbr acc) = s' /\ air_ok s' /\
+    a_blocks s' = nb ++ a_blocks s /\ Forall (fun b => 1 <= b < last) nb /\ sent s' <= sent s + 3 * Z.max 0 (last - i) /\
+    (fst (rd_loop air (t3_dev_read idm) fuel s i last nbr acc) = Ok None \/
+     exists d, fst (rd_loop air (t3_dev_read idm) fuel s i last nbr acc) = Ok (Some d) /\ bytes_ok d).
+Proof.
+  induction fuel as [|f IH]; intros s i last nbr acc H Hi Hn H1 Hl Hf Ha.
+  - cbn [rd_loop]. replace (i <? last) with false by lia. exists s, []. (split; [reflexivity|]); (split; [exact H|]); (split; [reflexivity|]); (split; [constructor|]); (split; [lia|]); right; exists acc; (split; [reflexivity | exact Ha]).
+  - cbn [rd_loop]. destruct (i <? last) eqn:E; [|exists s, []; (split; [reflexivity|]); (split; [exact H|]); (split; [reflexivity|]); (split; [constructor|]); (split; [lia|]); right; exists acc; (split; [reflexivity | exact Ha])].
+    set (bl := zrange i (Z.min (i + nbr) last)).
+    assert (Hbl : Forall (fun b => 0 <= b < 65536) bl) by (apply Forall_zrange; lia).
+    assert (Hln : len bl <= 80) by (unfold bl; rewrite zrange_len'; lia).
+    destruct (t3_dev_read_cases idm s bl H Hi Hbl Hln) as (s1 & Es & O & B & S & C).
+    destruct (t3_dev_read idm s bl) as [r s0]. cbn [fst snd] in *. subst s0.
+    assert (Hnb : Forall (fun b => 1 <= b < last) (rev bl)).
+    { apply Forall_rev. apply Forall_zrange. lia. }
+    destruct C as [(d & -> & Hd & _) | (e & ->)].
+    + destruct (IH s1 (i + nbr) last nbr (acc ++ d) O Hi Hn ltac:(lia) Hl ltac:(lia)) as (s' & nb & Es' & O' & B' & F' & S' & C').
+      { apply bytes_ok_app; auto. }
+      exists s', (nb ++ rev bl). split; [exact Es'|]. split; [exact O'|].
+      split; [rewrite B', B, app_assoc; reflexivity|]. split; [apply Forall_app; auto|]. split; [lia | exact C'].
+    + exists s1, (rev bl). cbn [fst snd]. split; [reflexivity|]. split; [exact O|]. split; [exact B|]. split; [exact Hnb|]. split; [lia|]. left; reflexivity.
+Qed.
+
+(* what the property demands of a reported NDEF state *)
+Definition t3_sound (f : fresh) (blocks : list Z) : Prop :=
+  match f with
+  | NoNdef => True
+  | Ndef _ _ cap d => len d <= cap /\ bytes_ok d /\ Forall (fun b => 0 <= b /\ 16 * b <= cap) blocks
+  end.
+
+Theorem t3_read_with_safe idm s : air_ok s -> len idm = 8 ->
+  exists f s' nb nmaxb, t3_read_with idm s = (Ok f, s') /\ air_ok s' /\ a_blocks s' = nb ++ a_blocks s /\ t3_sound f nb /\
+    0 <= nmaxb <= 65535 /\ sent s' <= sent s + 3 * (1 + nmaxb) /\ (forall r w cap d, f = Ndef r w cap d -> cap = 16 * nmaxb).
+Proof.
+  intros H Hi. unfold t3_read_with, read_attr.
+  destruct (t3_dev_read_cases idm s [0] H Hi) as (s1 & Es & O & B & S & C); [repeat constructor; lia | cbn; lia |].
+  destruct (t3_dev_read idm s [0]) as [r s0]. cbn [fst snd] in *. subst s0.
+  destruct C as [(d & -> & Hd & Hl) | (e & ->)]; [|exists NoNdef, s1, [0], 0; repeat split; auto; try lia; discriminate].
+  destruct (attr_parse d) as [a|] eqn:Ea; [|exists NoNdef, s1, [0], 0; repeat split; auto; try lia; discriminate].
+  pose proof (attr_parse_ok d a Hd Ea) as (Hv & Hr & Hw & Hm & Hwf & Hrw & Hln).
+  destruct (negb (a_ver a / 16 =? 1)); [exists NoNdef, s1, [0], 0; repeat split; auto; try lia; discriminate|].
+  destruct (a_nbr a =? 0) eqn:E0; [exists NoNdef, s1, [0], 0; repeat split; auto; try lia; discriminate|].
+  destruct (a_ln a >? a_nmaxb a * 16) eqn:E1; [exists NoNdef, s1, [0], 0; repeat split; auto; try lia; discriminate|].
+  set (last := 1 + (a_ln a + 15) / 16).
+  destruct (rd_loop_cases idm (Z.to_nat last) s1 1 last (Z.min (a_nbr a) 15) [] O Hi ltac:(lia) ltac:(lia) ltac:(unfold last; lia) ltac:(lia))
+    as (s' & nb & Es' & O' & B' & F' & S' & C'); [constructor|].
+  destruct (rd_loop air (t3_dev_read idm) (Z.to_nat last) s1 1 last (Z.min (a_nbr a) 15) []) as [r s0]. cbn [fst snd] in *. subst s0.
+  assert (Hsent : sent s' <= sent s + 3 * (1 + a_nmaxb a)) by (unfold last in S'; lia).
+  destruct C' as [-> | (dd & -> & Hdd)].
+  - exists NoNdef, s', (nb ++ [0]), (a_nmaxb a). split; [reflexivity|]. split; [exact O'|].
+    split; [rewrite B', B, <- app_assoc; reflexivity|]. repeat split; auto; try lia; discriminate.
+  - eexists (Ndef _ _ _ _), s', (nb ++ [0]), (a_nmaxb a). split; [reflexivity|]. split; [exact O'|].
+    split; [rewrite B', B, <- app_assoc; reflexivity|]. split.
+    + cbn [t3_sound]. split; [unfold take; pose proof (len_firstn_le (Z.to_nat (a_ln a)) dd); lia|].
+      split; [apply bytes_ok_firstn, Hdd|]. apply Forall_app. split; [|repeat constructor; lia].
+      eapply Forall_impl; [|exact F']. cbv beta. unfold last. intros b Hb. lia.
+    + split; [lia|]. split; [exact Hsent|]. intros r w cap d0 E. injection E as _ _ <- _. lia.
+Qed.
+
+Lemma t3_poll_cases s : air_ok s ->
+  exists s', snd (t3_poll s) = s' /\ air_ok s' /\ a_blocks s' = a_blocks s /\ sent s' <= sent s + 3 /\
+    ((exists idm pmm, fst (t3_poll s) = Ok (idm, pmm) /\ len idm = 8) \/ exists e, fst (t3_poll s) = Err (TagCommandError e)).
+Proof.
+  intro H. unfold t3_poll. destruct (t3_xchg3_cases s poll_frame H) as (s' & Es & O & B & S & C).
+  destruct (t3_xchg3 s poll_frame) as [r s0]. cbn [fst snd] in *. subst s0. exists s'.
+  destruct C as [(rsp & -> & Hr) | (e & ->)]; cbn [fst snd]; repeat split; auto; [|right; eauto].
+  destruct (t3_rsp_any_cases 0 false [] rsp Hr) as [(d & -> & Hd) | (e & ->)]; cbn [bind]; [|right; eauto].
+  destruct (negb (len d =? 16)) eqn:E; [right; eauto|]. left. eexists _, _. split; [reflexivity|].
+  unfold take, len in *. rewrite firstn_length. lia.
+Qed.
+
+(* tag.ndef of a Type 3 tag object (IDm of 8 bytes, any system code) against any responder *)
+Theorem t3_read_safe idm sys s : air_ok s -> len idm = 8 ->
+  exists f s' idm' sys' nb nmaxb, t3_read_ndef idm sys s = (Ok f, s', (idm', sys')) /\ air_ok s' /\ len idm' = 8 /\
+    a_blocks s' = nb ++ a_blocks s /\ t3_sound f nb /\
+    0 <= nmaxb <= 65535 /\ sent s' <= sent s + 3 * (2 + nmaxb) /\ (forall r w cap d, f = Ndef r w cap d -> cap = 16 * nmaxb).
+Proof.
+  intros H Hi. unfold t3_read_ndef. destruct (sys =? 4860).
+  - destruct (t3_read_with_safe idm s H Hi) as (f & s' & nb & nm & -> & O & B & Snd & Hm & S & Hc).
+    exists f, s', idm, sys, nb, nm. repeat split; auto; lia.
+  - destruct (t3_poll_cases s H) as (s1 & Es & O & B & S & C).
+    destruct (t3_poll s) as [r s0]. cbn [fst snd] in *. subst s0.
+    destruct C as [(idm' & pmm & -> & Hi') | (e & ->)].
+    + destruct (t3_read_with_safe idm' s1 O Hi') as (f & s' & nb & nm & -> & O' & B' & Snd & Hm & S' & Hc).
+      exists f, s', idm', 4860, nb, nm. repeat split; auto; try lia. congruence.
+    + exists NoNdef, s1, idm, sys, [], 0. cbn [t3_sound]. repeat split; auto; try lia. discriminate.
+Qed.
+
+(* the code before the repairs: ValueError for Nbr = 0, length 64 > capacity 16 for Ln = 64 with Nmaxb = 1 *)
+Definition ex_attr (nbr nmaxb ln : Z) : list Z :=
+  let b := [16; nbr; 4; nmaxb / 256; nmaxb mod 256; 0; 0; 0; 0; 0; 1; 0; ln / 256; ln mod 256] in
+  b ++ [sum b / 256; sum b mod 256].
+Definition ex_idm : list Z := [1; 2; 3; 4; 5; 6; 7; 8].
+Definition ex_rsp (blocks : list Z) : aresult := ARx ((13 + len blocks) :: 7 :: ex_idm ++ [0; 0; len blocks / 16] ++ blocks).
+Lemma t3_read_legacy_refuted :
+  fst (t3_read_with_legacy ex_idm (mkAir [ex_rsp (ex_attr 0 4 10)] [] [])) = Crash RangeStep0 /\
+  fst (t3_read_with ex_idm (mkAir [ex_rsp (ex_attr 0 4 10)] [] [])) = Ok NoNdef /\
+  (exists d, fst (t3_read_with_legacy ex_idm (mkAir [ex_rsp (ex_attr 4 1 64); ex_rsp (repeat 7 64)] [] [])) = Ok (Ndef true true 16 d) /\ len d = 64) /\
+  fst (t3_read_with ex_idm (mkAir [ex_rsp (ex_attr 4 1 64); ex_rsp (repeat 7 64)] [] [])) = Ok NoNdef.
+Proof. split; [vm_compute; reflexivity|]. split; [vm_compute; reflexivity|].
+  split; [eexists; split; vm_compute; reflexivity | vm_compute; reflexivity]. Qed.
+
+(* ------------------------------------------------------------ Type 4: the APDU channel *)
+Definition as_ok (a : ares) : Prop := match a with AOk d => bytes_ok d | AFail _ => True end.
+Definition chan_ok (c : chan) : Prop := Forall as_ok (c_script c).
+Definition napdu (c : chan) : Z := len (c_apdus c).
+
+Lemma last2_two (l : list Z) : (2 <= length l)%nat -> exists a b, last2 l = [a; b].
+Proof.
+  intro H. unfold last2. remember (skipn (length l - 2) l) as t eqn:E.
+  assert (L : length t = 2%nat) by (subst t; rewrite skipn_length; lia).
+  destruct t as [|a [|b [|c t]]]; try discriminate. eauto.
+Qed.
+Lemma apdu_finish_cases d : bytes_ok d ->
+  (exists r, apdu_finish true (Ok d) = Ok r /\ bytes_ok r) \/ exists e, apdu_finish true (Ok d) = Err (TagCommandError e).
+Proof.
+  intro Hb. unfold apdu_finish. cbn [bind]. destruct (len d <? 2) eqn:E; [right; eauto|].
+  destruct (last2_two d) as (a & b & ->); [unfold len in E; lia|].
+  destruct (Z.eq_dec a 144) as [->|Ha].
+  - destruct (Z.eq_dec b 0) as [->|Hb0]; [left; eexists; split; [reflexivity|]; apply bytes_ok_firstn, Hb|].
+    right. destruct b as [|p|p]; try congruence; eauto.
+  - right. destruct a as [|p|p]; eauto. repeat (destruct p as [p|p|]; eauto). congruence.
+Qed.
+
+Definition note_read (o : op) (rs : list (Z * Z)) : list (Z * Z) :=
+  match o with RdBin off m => (off, m) :: rs | _ => rs end.
+Lemma t4_send_cases c o : chan_ok c -> (exists a, apdu_of_op o = Ok a) ->
+  exists c', snd (t4_send_any c o) = c' /\ chan_ok c' /\ napdu c' = napdu c + 1 /\ c_reads c' = note_read o (c_reads c) /\
+    ((exists d, fst (t4_send_any c o) = Ok d /\ bytes_ok d) \/ exists e, fst (t4_send_any c o) = Err (TagCommandError e)).
+Proof.
+  intros H [a Ea]. unfold t4_send_any. rewrite Ea. cbn [fst snd]. eexists. split; [reflexivity|].
+  unfold chan_ok, napdu in *. cbn [c_script c_apdus c_reads]. rewrite len_cons.
+  split; [destruct (c_script c); cbn [tl]; [constructor | inversion H; auto]|]. split; [lia|]. split; [destruct o; reflexivity|].
+  destruct (c_script c) as [|x r]; cbn [hd_a]; [right; cbn; eauto|]. inversion H; subst.
+  destruct x as [d|e]; cbn [ares_res]; [apply apdu_finish_cases; auto | right; cbn; eauto].
+Qed.
+
+Lemma apdu_sel_aid v2 : exists a, apdu_of_op (SelAid v2) = Ok a.
+Proof. destruct v2; cbn; eauto. Qed.
+Lemma apdu_sel_fid p2 fid : len fid <= 255 -> exists a, apdu_of_op (SelFid p2 fid) = Ok a.
+Proof.
+  intro H. cbn [apdu_of_op]. unfold short_apdu. replace (len fid >? 255) with false by lia.
+  rewrite andb_false_r. cbn. eauto.
+Qed.
+Lemma apdu_rd off m : 0 <= off <= 65535 -> m <= 256 -> exists a, apdu_of_op (RdBin off m) = Ok a.
+Proof.
+  intros Ho Hm. cbn [apdu_of_op]. replace ((off <? 0) || (off >? 65535)) with false by lia.
+  unfold short_apdu. cbn [len length Z.of_nat Z.eqb negb andb]. replace (m >? 256) with false by lia.
+  rewrite andb_false_r. eauto.
+Qed.
+
+(* _read_binary: data of at most max(Le, 0) bytes, or Type4TagCommandError *)
+Lemma read_binary_cases c max_le off size : chan_ok c -> 0 <= off <= 65535 -> Z.min max_le size <= 256 ->
+  exists c', snd (read_binary_any c max_le off size) = c' /\ chan_ok c' /\ napdu c' = napdu c + 1 /\
+    c_reads c' = (off, Z.min max_le size) :: c_reads c /\
+    ((exists d, fst (read_binary_any c max_le off size) = Ok d /\ bytes_ok d /\ len d <= Z.max (Z.min max_le size) 0) \/
+     exists e, fst (read_binary_any c max_le off size) = Err (TagCommandError e)).
+Proof.
+  intros H Ho Hm. unfold read_binary_any, lift_c.
+  destruct (t4_send_cases c (RdBin off (Z.min max_le size)) H (apdu_rd _ _ Ho Hm)) as (c' & Ec & O & N & R & C).
+  destruct (t4_send_any c (RdBin off (Z.min max_le size))) as [r c0]. cbn [fst snd] in *. subst c0. exists c'.
+  destruct C as [(d & -> & Hd) | (e & ->)]; cbn [fst snd].
+  - destruct (len d >? Z.max (Z.min max_le size) 0) eqn:E; cbn [fst snd]; repeat split; auto; [right; eauto | left].
+    exists d. repeat split; auto; lia.
+  - repeat split; auto. right; eauto.
+Qed.
+
+Lemma be_nonneg l : bytes_ok l -> 0 <= be l.
+Proof.
+  unfold be. assert (G : forall l a, bytes_ok l -> 0 <= a -> 0 <= fold_left (fun a x => a * 256 + x) l a).
+  { induction l0 as [|x l0 IH]; intros a Hb Ha; cbn; [exact Ha|]. inversion Hb; subst. apply IH; auto. unfold byte_ok in *. lia. }
+  intro Hb. apply G; auto; lia.
+Qed.
+
+(* what discovery yields is usable: short Le, file identifier of two bytes, capacity inside the 16 bit offset range *)
+Definition info_ok (i : ccinfo) : Prop :=
+  i_mle i <= 256 /\ (i_nlen i = 2 \/ i_nlen i = 4) /\ i_nlen i + i_cap i <= 65536 /\ len (i_fid i) <= 2.
+Lemma cc_parse_ok p2 cap i : cc_parse p2 cap = Some i -> info_ok i.
+Proof.
+  unfold cc_parse. destruct (negb _); [discriminate|].
+  destruct (_ && _).
+  - intro E. injection E as <-. unfold info_ok. cbn [i_mle i_nlen i_cap i_fid]. repeat split; try lia; apply (len_firstn_le 2).
+  - destruct (_ && _); [|discriminate]. intro E. injection E as <-. unfold info_ok. cbn [i_mle i_nlen i_cap i_fid].
+    repeat split; try lia; apply (len_firstn_le 2).
+Qed.
+
+(* the data loop: no Hang, no Crash, every READ BINARY inside [nlen_size, nlen_size + nlen), one byte or more per command *)
+Lemma rd_file_any_cases : forall fuel c i nlen acc, chan_ok c -> info_ok i -> len acc <= nlen -> nlen <= i_cap i ->
+  (Z.to_nat (nlen - len acc) <= fuel)%nat -> bytes_ok acc ->
+  exists c' rs, snd (rd_file_any fuel c i nlen acc) = c' /\ chan_ok c' /\ napdu c' <= napdu c + (nlen - len acc) /\
+    c_reads c' = rs ++ c_reads c /\ Forall (fun r => 0 <= fst r /\ fst r + snd r <= i_nlen i + nlen) rs /\
+    (fst (rd_file_any fuel c i nlen acc) = Ok None \/
+     (exists d, fst (rd_file_any fuel c i nlen acc) = Ok (Some d) /\ bytes_ok d /\ len d = nlen) \/
+     exists e, fst (rd_file_any fuel c i nlen acc) = Err (TagCommandError e)).
+Proof.
+  induction fuel as [|f IH]; intros c i nlen acc H Hi Ha Hn Hf Hb.
+  - cbn [rd_file_any]. replace (len acc <? nlen) with false by lia. exists c, []. cbn [fst snd].
+    split; [reflexivity|]. split; [exact H|]. split; [lia|]. split; [reflexivity|]. split; [constructor|].
+    right; left. exists acc. repeat split; auto; lia.
+  - cbn [rd_file_any]. destruct (len acc <? nlen) eqn:E.
+    2: { exists c, []. cbn [fst snd]. split; [reflexivity|]. split; [exact H|]. split; [lia|]. split; [reflexivity|]. split; [constructor|].
+         right; left. exists acc. repeat split; auto; lia. }
+    destruct Hi as (Hm & Hns & Hc & Hfid). pose proof (len_nonneg acc) as Hp.
+    destruct (read_binary_cases c (i_mle i) (i_nlen i + len acc) (nlen - len acc) H ltac:(lia) ltac:(lia))
+      as (c1 & Ec & O & N & R & C).
+    unfold lift_c. destruct (read_binary_any c (i_mle i) (i_nlen i + len acc) (nlen - len acc)) as [r c0]. cbn [fst snd] in *. subst c0.
+    assert (Hr : Forall (fun r => 0 <= fst r /\ fst r + snd r <= i_nlen i + nlen) [(i_nlen i + len acc, Z.min (i_mle i) (nlen - len acc))]).
+    { repeat constructor; cbn [fst snd]; lia. }
+    destruct C as [(d & -> & Hd & Hl) | (e & ->)].
+    + destruct (len d =? 0) eqn:E0.
+      * exists c1, [(i_nlen i + len acc, Z.min (i_mle i) (nlen - len acc))]. cbn [fst snd].
+        split; [reflexivity|]. split; [exact O|]. split; [lia|]. split; [exact R|]. split; [exact Hr|]. left; reflexivity.
+      * pose proof (len_nonneg d).
+        destruct (IH c1 i nlen (acc ++ d) O ltac:(unfold info_ok; auto) ltac:(rewrite len_app; lia) Hn ltac:(rewrite len_app; lia))
+          as (c' & rs & Ec' & O' & N' & R' & F' & C'); [apply bytes_ok_app; auto|].
+        exists c', (rs ++ [(i_nlen i + len acc, Z.min (i_mle i) (nlen - len acc))]).
+        split; [exact Ec'|]. split; [exact O'|]. split; [rewrite len_app in N'; lia|].
+        split; [rewrite R', R, <- app_assoc; reflexivity|]. split; [apply Forall_app; auto | exact C'].
+    + exists c1, [(i_nlen i + len acc, Z.min (i_mle i) (nlen - len acc))]. cbn [fst snd].
+      split; [reflexivity|]. split; [exact O|]. split; [lia|]. split; [exact R|]. split; [exact Hr|]. right; right; eauto.
+Qed.
+
+Definition t4_sound (f : fresh) (i : ccinfo) (reads : list (Z * Z)) : Prop :=
+  match f with
+  | NoNdef => True
+  | Ndef _ _ cap d => cap = i_cap i /\ len d <= cap /\ bytes_ok d /\
+                      Forall (fun r => 0 <= fst r /\ fst r + snd r <= i_nlen i + cap) reads
+  end.
+
+Lemma select_fid_cases c p2 fid : chan_ok c -> len fid <= 255 ->
+  exists c' b, select_fid_any c p2 fid = (Ok b, c') /\ chan_ok c' /\ napdu c' = napdu c + 1 /\ c_reads c' = c_reads c.
+Proof.
+  intros H Hf. unfold select_fid_any.
+  destruct (t4_send_cases c (SelFid p2 fid) H (apdu_sel_fid p2 fid Hf)) as (c' & Ec & O & N & R & C).
+  destruct (t4_send_any c (SelFid p2 fid)) as [r c0]. cbn [fst snd] in *. subst c0.
+  destruct C as [(d & -> & _) | (e & ->)]; eexists _, _; repeat split; eauto.
+Qed.
+
+(* reading the NDEF file with what was discovered *)
+Theorem read_with_any_safe c i : chan_ok c -> info_ok i ->
+  exists f c' rs, read_with_any c i = (Ok f, c') /\ chan_ok c' /\ c_reads c' = rs ++ c_reads c /\ t4_sound f i rs /\
+    napdu c' <= napdu c + 2 + Z.max 0 (i_cap i).
+Proof.
+  intros H Hi. unfold read_with_any. pose proof Hi as (Hm & Hns & Hc & Hfid).
+  destruct (select_fid_cases c (i_p2 i) (i_fid i) H ltac:(lia)) as (c1 & b & -> & O1 & N1 & R1).
+  destruct b; [|exists NoNdef, c1, []; repeat split; auto; lia].
+  destruct (read_binary_cases c1 (i_mle i) 0 (i_nlen i) O1 ltac:(lia) ltac:(lia)) as (c2 & Ec & O2 & N2 & R2 & C).
+  unfold lift_c at 1. destruct (read_binary_any c1 (i_mle i) 0 (i_nlen i)) as [r c0]. cbn [fst snd] in *. subst c0.
+  destruct C as [(nl & -> & Hnl & Hl) | (e & ->)].
+  2: { exists NoNdef, c2, [(0, Z.min (i_mle i) (i_nlen i))]. repeat split; auto; [rewrite R2, R1; reflexivity | lia]. }
+  destruct (negb (len nl =? i_nlen i)) eqn:El.
+  { exists NoNdef, c2, [(0, Z.min (i_mle i) (i_nlen i))]. repeat split; auto; [rewrite R2, R1; reflexivity | lia]. }
+  destruct (be nl >? i_cap i) eqn:Ecap.
+  { exists NoNdef, c2, [(0, Z.min (i_mle i) (i_nlen i))]. repeat split; auto; [rewrite R2, R1; reflexivity | lia]. }
+  pose proof (be_nonneg nl Hnl) as Hbe.
+  destruct (rd_file_any_cases (Z.to_nat (be nl)) c2 i (be nl) [] O2 Hi ltac:(cbn; lia) ltac:(lia) ltac:(cbn; lia) ltac:(constructor))
+    as (c3 & rs & Ec3 & O3 & N3 & R3 & F3 & C3).
+  destruct (rd_file_any (Z.to_nat (be nl)) c2 i (be nl) []) as [r c0]. cbn [fst snd] in *. subst c0.
+  change (len (@nil Z)) with 0 in N3.
+  assert (RR : c_reads c3 = (rs ++ [(0, Z.min (i_mle i) (i_nlen i))]) ++ c_reads c) by (rewrite R3, R2, R1, <- app_assoc; reflexivity).
+  destruct C3 as [-> | [(d & -> & Hd & Hld) | (e & ->)]].
+  - exists NoNdef, c3, (rs ++ [(0, Z.min (i_mle i) (i_nlen i))]). repeat split; auto; lia.
+  - eexists (Ndef _ _ _ _), c3, (rs ++ [(0, Z.min (i_mle i) (i_nlen i))]). split; [reflexivity|]. split; [exact O3|]. split; [exact RR|].
+    split; [|lia]. cbn [t4_sound]. split; [reflexivity|]. split; [lia|]. split; [exact Hd|].
+    apply Forall_app. split.
+    + eapply Forall_impl; [|exact F3]. cbv beta. intros r0 Hr0. lia.
+    + repeat constructor; cbn [fst snd]; lia.
+  - exists NoNdef, c3, (rs ++ [(0, Z.min (i_mle i) (i_nlen i))]). repeat split; auto; lia.
+Qed.
+
+Lemma select_app_cases c : chan_ok c ->
+  exists c' r, select_app_any c = (r, c') /\ chan_ok c' /\ napdu c' <= napdu c + 2 /\ c_reads c' = c_reads c.
+Proof.
+  intro H. unfold select_app_any.
+  destruct (t4_send_cases c (SelAid true) H (apdu_sel_aid true)) as (c1 & Ec & O & N & R & C).
+  destruct (t4_send_any c (SelAid true)) as [r c0]. cbn [fst snd] in *. subst c0.
+  destruct C as [(d & -> & _) | (e & ->)]; [eexists _, _; repeat split; eauto; lia|].
+  destruct (e <=? 0); [eexists _, _; repeat split; eauto; lia|].
+  destruct (t4_send_cases c1 (SelAid false) O (apdu_sel_aid false)) as (c2 & Ec2 & O2 & N2 & R2 & C2).
+  destruct (t4_send_any c1 (SelAid false)) as [r c0]. cbn [fst snd] in *. subst c0.
+  cbn [note_read] in *. destruct C2 as [(d & -> & _) | (e2 & ->)]; eexists _, _; repeat split; eauto; try lia; congruence.
+Qed.
+
+(* capability container discovery: information that is usable, or none; never Crash *)
+Theorem discover_any_safe c : chan_ok c ->
+  exists c' r, discover_any c = (r, c') /\ chan_ok c' /\ napdu c' <= napdu c + 5 /\
+    ((exists i, r = Ok (Some i) /\ info_ok i) \/ r = Ok None \/ exists e, r = Err (TagCommandError e)).
+Proof.
+  intro H. unfold discover_any.
+  destruct (select_app_cases c H) as (c1 & r1 & -> & O1 & N1 & _).
+  destruct r1 as [p2|]; [|exists c1, (Ok None); repeat split; auto; lia].
+  destruct (select_fid_cases c1 p2 cc_fid O1 ltac:(cbn; lia)) as (c2 & b & -> & O2 & N2 & _).
+  destruct b; [|exists c2, (Ok None); repeat split; auto; lia].
+  destruct (read_binary_cases c2 15 0 2 O2 ltac:(lia) ltac:(lia)) as (c3 & Ec & O3 & N3 & _ & C3).
+  unfold lift_c at 1. destruct (read_binary_any c2 15 0 2) as [r c0]. cbn [fst snd] in *. subst c0.
+  destruct C3 as [(cclen & -> & Hcl & _) | (e & ->)]; [|exists c3, (Err (TagCommandError e)); repeat split; auto; [lia | right; right; eauto]].
+  destruct (negb (len cclen =? 2)); [exists c3, (Ok None); repeat split; auto; lia|].
+  destruct (read_binary_cases c3 15 2 (Z.min (be cclen - 2) 15) O3 ltac:(lia) ltac:(lia)) as (c4 & Ec4 & O4 & N4 & _ & C4).
+  unfold lift_c. destruct (read_binary_any c3 15 2 (Z.min (be cclen - 2) 15)) as [r c0]. cbn [fst snd] in *. subst c0.
+  destruct C4 as [(cap & -> & Hcap & Hlc) | (e & ->)]; [|exists c4, (Err (TagCommandError e)); repeat split; auto; [lia | right; right; eauto]].
+  destruct (len cap <? 13); [exists c4, (Ok None); repeat split; auto; lia|].
+  replace (len cap >? 15) with false by lia.
+  exists c4, (Ok (cc_parse p2 cap)). split; [reflexivity|]. split; [exact O4|]. split; [lia|].
+  destruct (cc_parse p2 cap) as [i|] eqn:E; [left; exists i; split; [reflexivity | eapply cc_parse_ok; eauto] | right; left; reflexivity].
+Qed.
+
+(* tag.ndef of a Type 4 tag object against ANY card behaviour above the ISO-DEP layer *)
+Theorem t4_read_safe c : chan_ok c -> c_reads c = [] ->
+  exists f oi c', t4_read_any c = (Ok (f, oi), c') /\ chan_ok c' /\
+    match f, oi with
+    | NoNdef, _ => True
+    | Ndef _ _ cap d, Some i => info_ok i /\ cap = i_cap i /\ len d <= cap /\ bytes_ok d
+    | Ndef _ _ _ _, None => False
+    end /\
+    napdu c' <= napdu c + 7 + Z.max 0 (match oi with Some i => i_cap i | None => 0 end).
+Proof.
+  intros H Hr. unfold t4_read_any.
+  destruct (discover_any_safe c H) as (c1 & r & -> & O1 & N1 & C).
+  destruct C as [(i & -> & Hi) | [-> | (e & ->)]]; [| exists NoNdef, None, c1; repeat split; auto; lia ..].
+  destruct (read_with_any_safe c1 i O1 Hi) as (f & c2 & rs & -> & O2 & R2 & S2 & N2).
+  exists f, (Some i), c2. split; [reflexivity|]. split; [exact O2|]. split; [|lia].
+  destruct f as [|r w cap d]; [exact I|]. cbn [t4_sound] in S2. destruct S2 as (-> & Hl & Hd & _). auto.
+Qed.
+
+(* the code before the repairs (Model/T4T.v against an honest card): NLEN beyond the end of the file makes the reader
+   repeat a READ BINARY that yields nothing, for ever; NLEN beyond the declared file size is reported as it is *)
+Definition ex_cc (mfs : Z) : list Z := [0; 15; 32; 0; 59; 0; 52; 4; 6; 225; 4; mfs / 256; mfs mod 256; 0; 0].
+Definition ex_card (mfs : Z) (file : list Z) : card := mkCard (ex_cc mfs) [225; 4] file true false false 0 (-1) [].
+Definition script_of_card (mfs : Z) (file : list Z) : list ares :=
+  [AOk [144; 0]; AOk [144; 0]; AOk [0; 15; 144; 0]; AOk (skipn 2 (ex_cc mfs) ++ [144; 0]); AOk [144; 0];
+   AOk (firstn 2 file ++ [144; 0])].
+Lemma t4_read_legacy_refuted :
+  t4_fresh (ex_card 256 ([16; 0] ++ repeat 7 100)) = Hang /\
+  fst (t4_read_any (mkChan (script_of_card 256 ([16; 0] ++ repeat 7 100)) [] [])) = Ok (NoNdef, Some (mkInfo 59 52 254 true true 2 [225; 4] 12)) /\
+  (exists d, t4_fresh (ex_card 16 ([0; 64] ++ repeat 7 100)) = Ok (Ndef true true 14 d) /\ len d = 64) /\
+  fst (t4_read_any (mkChan (script_of_card 16 ([0; 64] ++ repeat 7 100)) [] [])) = Ok (NoNdef, Some (mkInfo 59 52 14 true true 2 [225; 4] 12)).
+Proof.
+  split; [vm_compute; reflexivity|]. split; [vm_compute; reflexivity|].
+  split; [eexists; split; vm_compute; reflexivity | vm_compute; reflexivity].
+Qed.
